@@ -56,8 +56,11 @@ MkSet == \E i \in Idx : Class(pool[i]) \in {"string", "number"} /\ Push(SSet(poo
 MkTuple == \E i \in Idx, j \in Idx : Push(STuple(<<pool[i], pool[j]>>))
 MkMap == \E i \in Idx : Push(SMap(pool[i]))
 MkNullable == \E i \in Idx : Class(pool[i]) \notin {"null", "mixed"} /\ ~SHas(pool[i], "oneOf") /\ Push(SNullable(pool[i]))
+(* (a null-typed payload makes the variant a unit variant that serialises as a string: recorded
+   finding C03-null-payload-variant-serialises-as-string, exercised by F9 ext-tuple) *)
 MkExt == \E i \in Idx, j \in Idx :
-           Push(SOneOf(<< [type |-> "string", enum |-> <<JS0(<<"U">>)>>],
+           /\ Class(pool[i]) # "null" /\ Class(pool[j]) # "null"
+           /\ Push(SOneOf(<< [type |-> "string", enum |-> <<JS0(<<"U">>)>>],
                           SObjClosed(Props1("V", pool[i]), {"V"}), SObjClosed(Props1("W", pool[j]), {"W"}) >>))
 MkInt == \E i \in Idx, j \in Idx, closed \in BOOLEAN :
            /\ IsObject(pool[i]) /\ IsObject(pool[j]) /\ "kind" \notin PropNames(pool[i]) \cup PropNames(pool[j])
